@@ -11,7 +11,8 @@ import numpy as np
 import vlib
 from props import c15
 
-THEOREMS = []
+THEOREMS = ['Libvna.LU.' + t for t in ('sum_split3', 'lu_of_recurrence', 'forward_subst', 'back_subst', 'solve_correct', 'det_of_lu',
+                                      'zero_pivot_singular', 'nonzero_pivots_nonsingular')]
 FILES = ['Model/LinAlg.lean', 'Props/C19.lean']
 LD = np.clongdouble
 
@@ -78,6 +79,9 @@ def run(chk):
     broken = []
     if THEOREMS:
         c15.proof_side(chk, ['Libvna.Props.C19'], THEOREMS, FILES, broken)
+    chk.trusted += ['Props/C19.lean is partial: the step from the imperative loops to the recurrences is tied by correspondence only',
+                    'backward stability / rounding: measured (row-wise relative residual in extended precision), not proved']
+    chk.checker_cmd = 'cd lean && lake build Libvna.Props.C19 && #print axioms'
     exe, _ = vlib.build_c()
     quick = chk.tier == 'quick'
     N = (40 if quick else 1500) * (5 if broken else 1)
@@ -123,11 +127,40 @@ def run(chk):
             fn = rng.choice(['vnaconv_ztoyn', 'vnaconv_ytozn'])
             lines.append('convn %s %d sep %s %s' % (fn, n, flat(A), ' '.join([vlib.c2h(50)] * n)))
             cases.append(('convn', 'singular-' + sk, A, None))
+    # the factors themselves: the hypotheses of lu_of_recurrence / det_of_lu, checked on the C's output
+    lu_cases = []
+    for _ in range(N):
+        n = rng.randint(1, nmax)
+        A = make_square(rng, n, rng.choice(['random', 'rowscaled', 'int', 'graded']))
+        lu_cases.append((len(lines), A))
+        lines.append('num lu %d %s' % (n, flat(A)))
+        cases.append(('lu', 'factors', A, None))
     cout, crc, cerr = vlib.run_lines(exe, lines)
     if crc != 0 or len(cout) != len(lines):
         bad = lines[min(len(cout), len(lines) - 1)]
         chk.violation('sanitizer', 'kernel crashed / sanitizer fired: %s' % cerr[-1500:], [bad])
         return
+    for (k, A) in lu_cases:
+        w = cout[k].split()
+        n = A.shape[0]
+        d = vlib.hs2c(w[1:3])[0]
+        pi = [int(x) for x in w[w.index('P') + 1:w.index('A')]]
+        packed = np.array(vlib.hs2c(w[w.index('A') + 1:]), complex).reshape(n, n)
+        L = np.tril(packed, -1) + np.eye(n)
+        U = np.triu(packed)
+        PA = A[pi]
+        sc = np.abs(L) @ np.abs(U)
+        r = np.abs(L.astype(LD) @ U.astype(LD) - PA.astype(LD))
+        rel = float((r / np.where(sc > 0, sc, 1)).max())
+        dref = np.linalg.det(A)
+        if sorted(pi) != list(range(n)):
+            chk.violation('lu-perm', 'row_index returned by _vnacommon_lu is not a permutation: %r' % pi, [lines[k]])
+        elif not rel <= 1e-12:
+            chk.violation('lu-factors', '_vnacommon_lu: L U differs from the row-permuted input by %.3e (relative, n=%d)' % (rel, n), [lines[k]])
+        elif abs(d - dref) > 1e-9 * max(abs(dref), 1e-300) and abs(dref) > 1e-200:
+            chk.violation('lu-det', '_vnacommon_lu determinant %r differs from %r' % (d, dref), [lines[k]])
+        else:
+            chk.count('lu_factors_ok')
     mout, mrc, merr = vlib.run_lines(vlib.model_exe(), lines)
     if mrc != 0 or len(mout) != len(lines):
         broken.append('model driver failed: rc=%s %s' % (mrc, merr[-300:]))
@@ -140,6 +173,9 @@ def run(chk):
     for idx, (op, kind, A, B) in enumerate(cases):
         chk.evaluations += 1
         line = cout[idx]
+        if op == 'lu':
+            chk.distinct.add(('lu', idx))
+            continue
         if kind.startswith('singular'):
             w = line.split()
             vals = vlib.hs2c(w[w.index('X') + 1:] if 'X' in w else w[1:])
